@@ -27,17 +27,26 @@ LEVEL_TEXT = (
     "model: the printed text lexes to exactly the tokens of the emitted definitions (text_lexes), parses to their "
     "document (text_roundtrip), which read back as definitions is schemaToDefs s and builds back to the same schema "
     "(text_roundtrip_defs, text_build_roundtrip), for every "
-    "well-formed schema whose printed definitions are well formed in C08's sense (TextWF). The models are tied to "
+    "well-formed schema whose printed definitions are well formed in C08's sense (TextWF). TextWF follows from the "
+    "decidable Bool predicate textWFb on the schema content (textWF_of_textWFb; the four text theorems restated with it: "
+    "text_lexes_b, text_roundtrip_b, text_build_roundtrip_b, text_roundtrip_defs_b), and the check evaluates textWFb "
+    "through the driver on every generated / corpus schema that validate_schema accepts and requires it to be true. "
+    "The models are tied to "
     "print_schema / build_ast_schema / extend_schema by a correspondence run over generated schemas (SDL-built "
     "and programmatically assembled), the text model code point for code point; the round-trip relations of the "
     "property are evaluated directly on the implementation for every generated schema."
 )
 LEVEL_NOTE = (
-    "The text theorems carry the hypothesis TextWF (the translated definitions satisfy C08's Exec.gdefsWf: valid "
-    "names, strings of Unicode scalar values, block descriptions representable, well-formed const default literals, "
+    "The text theorems carry the hypothesis TextWF (the translated definitions satisfy C08's Exec.gdefsWf), or in the "
+    "_b form the decidable textWFb (Gql/Types/PrintSchemaTextWF.lean: valid "
+    "names, strings of Unicode scalar values, block descriptions representable, well-formed const default literals "
+    "incl. the specification's number grammar as a recogniser, "
     "parser-shaped type references, enum values other than true/false/null, locations from the parser table, the "
-    "directives-on-directive-definitions flag when a directive is deprecated); it is a Prop, not derived from "
-    "WFSchema, and shown satisfiable on a schema using every definition kind and layout. The parsed tree is C08's "
+    "directives-on-directive-definitions flag when a directive is deprecated); textWFb is proved sufficient for TextWF "
+    "(not necessary), is not derived from "
+    "WFSchema or from validate_schema: that every valid schema satisfies it is observed (the `textwf` stream: T on every "
+    "valid generated schema; without the flag exactly when no directive is deprecated), not proved; both are "
+    "shown satisfiable on a schema using every definition kind and layout. The parsed tree is C08's "
     "generic AST of typed document trees; gdefsToDefs reads those trees as C17's definition AST and is proved to give "
     "back exactly schemaToDefs s when default values are proper literals (schemaShaped, decidable); the step generic "
     "AST -> typed tree is C08's gdocAst (injective by construction, not separately proved). Programmatic default values reach the model after the "
@@ -52,6 +61,7 @@ TRUSTED = [
     "buildFromDefs = build_ast_schema/extend_schema builders), Diff.lean (find_schema_changes); tied to the code by the "
     "correspondence run",
     "hand-written Lean model Gql/Types/PrintSchemaText.lean (print_schema at text level); tied by the `text` correspondence stream",
+    "hand-written Lean predicate Gql/Types/PrintSchemaTextWF.lean (textWFb, the domain of the text theorems); evaluated by the `textwf` stream on every valid schema",
     "the lexer / parser / print_string / print_block_string models — C08 and C01's; reused by the text theorems",
     "tools/c17_gen.py: generator, schema -> content extraction (reads type_map, fields, get_default_value_ast), S-expression codec",
 ]
@@ -66,8 +76,10 @@ EXPLANATION = (
     "Theorems: build_schemaToDefs (buildFromDefs (schemaToDefs s) = ok s for WFSchema s), print_fixed_point, rebuilt_wf, "
     "changes_roundtrip, changes_refl, schema_block_rule, schemaToDefs_injective, description_roundtrip, deprecation_roundtrip, "
     "text_lexes, text_roundtrip (parse (printSchemaText s) = document of schemaToDefs s), text_build_roundtrip, "
-    "text_roundtrip_defs (the parsed document read back as definitions = schemaToDefs s, and builds to s). "
-    "Correspondence: model text vs print_schema (code point for code point), model definitions vs parse(print_schema), model build vs build_schema, WFSchema on every valid generated "
+    "text_roundtrip_defs (the parsed document read back as definitions = schemaToDefs s, and builds to s), "
+    "textWF_of_textWFb (the decidable predicate implies TextWF) and text_lexes_b / text_roundtrip_b / text_build_roundtrip_b / "
+    "text_roundtrip_defs_b (the text theorems under textWFb = true). "
+    "Correspondence: model text vs print_schema (code point for code point), model definitions vs parse(print_schema), model build vs build_schema, WFSchema and textWFb on every valid generated "
     "schema, model changes vs find_schema_changes. Oracles: rebuild succeeds, validates, reprints identically, no changes both "
     "ways, content equal field by field, defaults coerce to the same values, programmatic defaults denote the given values."
 )
@@ -224,6 +236,12 @@ def check_schema(rep, schema, case, lines, meta, ir=None, ordered=True, sdl=None
         meta.append(("build_schema(generated sdl)", dict(case, sdl=sdl), "ok " + sx))
     lines.append("wf " + sx)
     meta.append(("WFSchema(valid schema)", inp, "T"))
+    # the decidable hypothesis of the text theorems (textWFb) holds on every valid schema; without
+    # experimental_directives_on_directive_definitions exactly when no directive is deprecated
+    lines.append("textwf " + sx)
+    no_depr_dir = all(d["depr"] is None for d in sir["directives"])
+    meta.append(("textWFb(valid schema)", inp, "T " + ("T" if no_depr_dir else "F")))
+    rep.stats["textwf_asserted"] = rep.stats.get("textwf_asserted", 0) + 1
     lines.append("roundtrip " + sx)
     meta.append(("model round trip", inp, "T"))
     lines.append(f"changes {sx} {g.sx_schema(rir)}")
